@@ -42,6 +42,7 @@ func (s *Server) injected() error {
 	}
 	return ErrInjected
 }
+
 var ErrAborted = errors.New("pgfake: current transaction is aborted, commands ignored until end of transaction block (SQLSTATE 25P02)")
 
 // Event is one entry of the transaction log.
